@@ -5,6 +5,10 @@ package extractor
 import (
 	"net/http"
 
+	"github.com/PuerkitoBio/goquery"
+	"github.com/internetarchive/Zeno/internal/pkg/config"
+	"golang.org/x/net/html"
+
 	"github.com/internetarchive/Zeno/internal/verifrt"
 	"github.com/internetarchive/Zeno/pkg/models"
 )
@@ -84,5 +88,40 @@ func VerifH_C10_json_shapes() {
 	verifrt.Cover("walked")
 	for _, l := range links {
 		verifrt.Assert(l != "", "C10 JSON: no empty link")
+	}
+}
+
+// VerifH_C10_srcset: any srcset / data-srcset text a page can carry (up to 4 bytes over the characters the splitting
+// code looks at) on img and source elements goes through HTMLAssets without a panic, and no asset is invented.
+func VerifH_C10_srcset() {
+	config.VerifSet(&config.Config{})
+	v := verifrt.String("srcset", 4)
+	c19Alpha(v, "a, \n")
+	tag := []string{"img", "source"}[verifrt.Choice("tag", 2)]
+	attr := []string{"srcset", "data-srcset"}[verifrt.Choice("attribute", 2)]
+	u := &models.URL{Raw: "http://site.example/dir/page"}
+	if err := u.Parse(); err != nil {
+		panic(err)
+	}
+	item := models.NewItem("p", u, "")
+	els := []c07El{{tag, [][2]string{{attr, v}}}}
+	if verifrt.Symbolic() {
+		root := &html.Node{Type: html.DocumentNode}
+		h := c07Node("html", nil)
+		root.AppendChild(h)
+		b := c07Node("body", nil)
+		h.AppendChild(b)
+		b.AppendChild(c07Node(tag, els[0].attrs))
+		u.SetDocument(goquery.NewDocumentFromNode(root))
+	}
+	u.SetBody(&c19Body{Reader: bytesReader(c07Render(els))})
+	assets, err := HTMLAssets(item) // a panic or an unbounded loop here is reported by the engine
+	verifrt.Cover("srcset-parsed")
+	verifrt.Assert(err == nil, "C10 a page with any srcset text is still extracted")
+	for _, a := range assets {
+		if a != nil && len(a.Raw) > 0 {
+			verifrt.Cover("srcset-candidate")
+			verifrt.Assert(len(a.Raw) <= len(v), "C10 srcset: candidates come from the attribute text")
+		}
 	}
 }
